@@ -335,6 +335,16 @@ def gen_case(rng, idx):
         for _ in range(rng.randint(2, 6)):
             ops.append(["draw", rng.randint(0, 1)])
         return {"kind": "shared", "streams": [stream_spec(rng)], "ops": ops}
+    if r < 0.76:       # a refused re-pointing next to an undisturbed twin
+        ps = gen_params(rng, cname, ext)
+        s = stream_spec(rng)
+        ops = [["new", 0, cname, True, 0, ps], ["new", 1, cname, True, 1, ps]]
+        for _ in range(rng.randint(0, 4)):
+            ops += [["draw", 0], ["draw", 1]]
+        ops.append(["set", 0, False, rng.randint(0, 2)])
+        for _ in range(rng.randint(1, 3)):
+            ops += [["draw", 0], ["draw", 1]]
+        return {"kind": "refused", "streams": [s, dict(s)], "ops": ops}
     if r < 0.88:       # re-pointing
         ops = [["new", 0, cname, True, 0, gen_params(rng, cname, ext)]]
         ops += [["draw", 0]] * rng.randint(0, 3)
@@ -368,6 +378,41 @@ def gen_ctor_cases(rng):
                               ["new", 1, cname, False, 1, boundary_grid(cname)[2]],
                               ["new", 2, cname, False, 0, boundary_grid(cname)[-1]]]})
     return cases
+
+
+def refused_repoint_cases(rng):
+    """Every class: k draws, then `dist.stream = <not a stream>` (None / 3 / a string: TypeError), then more draws -
+    next to a twin with the same parameters on an equally seeded stream that does not see the refused assignment.
+    A refused operation must change nothing: the twins keep drawing identical values from identical positions."""
+    cases = []
+    for cname in CLASSES:
+        for k in (1, 2, 3):
+            ps = gen_params(rng, cname, False)
+            s = stream_spec(rng, script=[])
+            ops = [["new", 0, cname, True, 0, ps], ["new", 1, cname, True, 1, ps]]
+            for _ in range(k):
+                ops += [["draw", 0], ["draw", 1]]
+            ops.append(["set", 0, False, k - 1])             # None, 3, "stream"
+            for _ in range(2):
+                ops += [["draw", 0], ["draw", 1]]
+            cases.append({"kind": "refused", "streams": [s, dict(s)], "ops": ops})
+    return cases
+
+
+def nonfinite_parameter_cases(rng):
+    """Every class with NaN / +inf / -inf at each float position (the others valid): if the constructor accepts, the
+    object must be usable - two draws on ordinary uniforms must not raise."""
+    cases = []
+    for cname in CLASSES:
+        for ps in boundary_grid(cname):
+            if any(p[0] == "f" and not math.isfinite(float.fromhex(p[1])) for p in ps):
+                cases.append({"kind": "nonfinite", "streams": [stream_spec(rng, script=[], kind="script")],
+                              "ops": [["new", 0, cname, True, 0, ps], ["draw", 0], ["draw", 0]]})
+    return cases
+
+
+def ordinary(us):
+    return all(1e-9 < u < 1.0 - 1e-9 for u in us)
 
 
 def targeted_cases(rng):
@@ -695,8 +740,16 @@ def oracle(case, res):
                 (cname in ("DistGamma", "DistBeta", "DistPearson5", "DistPearson6", "DistErlang") and n > 4):
             info["retry"] = True
         dom, _ = domain(cname, vals)
+        if dom == "unspecified":
+            # no documented range says whether NaN / inf is allowed here, so accepting or refusing is both fine -
+            # but what the constructor ACCEPTS must be usable: drawing on ordinary uniforms does not raise
+            if out[0] == "raise" and ordinary(used):
+                findings.append((f"accepted-but-unusable:{cname}",
+                                 f"{cname}{tuple(vals)} was accepted at construction but draw() raised {out[1]}: {out[2]} "
+                                 f"after consuming {[u.hex() for u in used]}", k))
+            continue
         if dom != "in":
-            continue        # no verdict on draws of instances outside / at the edge of the documented domain
+            continue        # no verdict on draws of instances outside the documented domain
         if out[0] == "raise":
             info["raises"] += 1
             sig = classify_draw_raise(cname, [float(v) if type(v) is int and cname not in DISCRETE else v for v in vals],
@@ -751,6 +804,17 @@ def pair_oracles(case, res, solo_res):
         if a != b:
             k = next(j for j, (x, y) in enumerate(zip(a, b)) if x != y)
             findings.append((f"twin-streams-differ:{ops[0][2]}", f"equal parameters on equally seeded streams: draw #{k} gives {a[k][:3]} vs {b[k][:3]}", k))
+    if case["kind"] == "refused":
+        a = [o for op, o in zip(ops, outs) if op[0] == "draw" and op[1] == 0]
+        b = [o for op, o in zip(ops, outs) if op[0] == "draw" and op[1] == 1]
+        if a != b:
+            k = next((j for j, (x, y) in enumerate(zip(a, b)) if x != y), min(len(a), len(b)))
+            ks = next(j for j, op in enumerate(ops) if op[0] == "set")
+            obj = ["None", "3", "'stream'"][ops[ks][3] % 3]
+            findings.append((f"refused-set-stream-changes-state:{ops[0][2]}",
+                             f"{ops[0][2]}{tuple(pval(p) for p in ops[0][5])}: after the refused assignment dist.stream = {obj} "
+                             f"(TypeError) draw #{k} gives {a[k][1:4] if k < len(a) else None} (value, uniforms consumed) but the twin "
+                             f"that did not see the assignment gives {b[k][1:4] if k < len(b) else None}", ks))
     if case["kind"] == "isolation" and solo_res is not None:
         a = [o for op, o in zip(ops, outs) if op[0] == "draw" and op[1] == 0]
         b = [o for op, o in zip(case["solo"]["ops"], solo_res["outs"]) if op[0] == "draw"]
@@ -1061,6 +1125,8 @@ def main(tier: str) -> int:
     n_corpus = len(cases)
     cases += gen_ctor_cases(rng)
     cases += targeted_cases(rng)
+    cases += refused_repoint_cases(rng)
+    cases += nonfinite_parameter_cases(rng)
     for i in range(n_random):
         cases.append(gen_case(rng, i))
     solo_of = {}
@@ -1093,15 +1159,16 @@ def main(tier: str) -> int:
             if out and out[0] == "raise":
                 hist_exc[out[1]] = hist_exc.get(out[1], 0) + 1
         n_draws += info["draws"]
-        if info["special"] or info["retry"] or c["kind"] in ("twin", "isolation", "repoint", "shared", "quantity") \
+        if info["special"] or info["retry"] or c["kind"] in ("twin", "isolation", "repoint", "refused", "shared", "quantity") \
                 or (c["kind"] == "ctor"):
             nontrivial.add(json.dumps(public(c), sort_keys=True))
     run.cov["evaluations"] = len(cases)
     run.cov["distinct_nontrivial"] = len(nontrivial)
     run.cov["rule"] = ("scenarios over all 19 classes: constructor boundary grids (0, -0, negative, NaN, +-inf, subnormal, "
-                       "equal/crossed bounds, p in {0,1}, wrong types, non-stream), every class on the scripts "
+                       "equal/crossed bounds, p in {0,1}, wrong types, non-stream), two draws from whatever is accepted with a NaN / inf "
+                       "parameter, every class with a refused stream assignment (None / 3 / str) after 1, 2, 3 draws, every class on the scripts "
                        "[0.0], [1-2^-53], [5e-324], [2^-53], [0.5,0.5], ... and random scenarios (single / twin streams / "
-                       "isolation / shared stream / re-pointing / quantity wrappers) with parameters across the documented "
+                       "isolation / shared stream / re-pointing / refused re-pointing next to an undisturbed twin / quantity wrappers) with parameters across the documented "
                        "domain (magnitudes 1e-3..1e3, 12% with extremes 5e-324..1.8e308) and scripted uniforms falling "
                        "through to a seeded tail; non-trivial = distinct scenario that is a boundary-constructor, twin, "
                        "isolation, shared, re-pointing or wrapper scenario, or contains a draw that consumed a special "
